@@ -11,7 +11,7 @@ def replay_grouping(f):
     from refs.precedence import Reader, Skip, Reject, shape_of_ast, normalise
     d = f['dialect']
     L, P = SW.dialect_classes(d)
-    sql = to_sql(d, f['all_types'])
+    sql = to_sql(d, f['all_types'], spelling=f.get('spelling'))
     info = {'sql': sql, 'dialect': d, 'context': f['context']}
     try:
         lexed = [t.type for t in L().tokenize(sql)]
@@ -181,6 +181,8 @@ def run(tier):
                        'expressions longer than the bound are outside the SYMTOK claim; the LRZ3 query covers every state for binary/unary operator reductions without competing reductions']
     totals = {}
     core_K = (7,) if tier == 'quick' else (7, 8)
+    spell_K = (1, 2, 3, 4) if tier == 'quick' else (1, 2, 3, 4, 5)
+    run.bounds['word_tokens_in_other_letter_case'] = {'select_list_expression_tokens': max(spell_K), 'spellings': ['lower', 'mixed']}
     run.bounds['core_alphabet'] = c03lib.CORE_ALPHA
     run.bounds['core_alphabet_expression_tokens'] = max(core_K)
     plan = []
@@ -190,16 +192,24 @@ def run(tier):
                 plan.append((d, ctx, K, None))
         for K in core_K:
             plan.append((d, 'select-list', K, c03lib.CORE_ALPHA))
-    for d, ctx, K, alpha in plan:
+        # the same streams with the word tokens (NOT, AND, OR, IN, IS, LIKE, BETWEEN, NULL ..) written in another letter case: the lexers
+        # are case-insensitive, so an action that looks at the text of a token must not care
+        for K in spell_K:
+            plan.append((d, 'select-list', K, None, 'lower'))
+        plan.append((d, 'where', min(3, max(spell_K)), None, 'mixed'))
+        plan.append((d, 'select-list', 5 if tier == 'quick' else 6, c03lib.CORE_ALPHA, 'mixed'))
+    for entry in plan:
+        d, ctx, K, alpha = entry[:4]
+        spelling = entry[4] if len(entry) > 4 else None
         if True:
             if True:
-                tot, findings, samples = c03lib.sweep(d, ctx, K, alpha=alpha)
+                tot, findings, samples = c03lib.sweep(d, ctx, K, alpha=alpha, spelling=spelling)
                 if not tot.get('paths'):
                     continue
                 run.add_stats({'paths': tot['paths'], 'solver_calls': tot.get('solver_calls', 0), 'solver_s': tot.get('solver_s', 0)})
                 for k in ('match', 'skip-chained-comparison', 'outside-reference-grammar', 'other-structure', 'accept', 'reject', 'covered'):
                     totals[k] = totals.get(k, 0) + tot.get(k, 0)
-                name = 'symtok:%s:%s:K=%d%s' % (d, ctx, K, ':core-alphabet' if alpha else '')
+                name = 'symtok:%s:%s:K=%d%s%s' % (d, ctx, K, ':core-alphabet' if alpha else '', ':%s-case words' % spelling if spelling else '')
                 bad = [f for f in findings if f['kind'] == 'grouping']
                 if not bad:
                     run.ob(name, 'discharged', 'paths=%d accepted=%d compared=%d' % (tot['paths'], tot.get('accept', 0), tot.get('match', 0)))
